@@ -35,6 +35,7 @@ impose_moment_order01 impose_moment_spec
 impose_product_spec impose_product_even_sign_partial impose_product_even_sign_witness impose_product_zero impose_product_zsum_spec
 normalize_lp_spec
 metrics_matrix_def metrics_pairwise_def metrics_pairwise_broadcast_def metrics_dmin2_def metrics_mixed_def metrics_points_def minkowski_p0_raises
+overflowed_false_of_finite minkowski_finite_no_fallback minkowski_overflow_fallback lnorm_finite_no_fallback lnorm_overflow_fallback
 """.split()]
 
 RTOL = 1e-9
@@ -1525,8 +1526,8 @@ def fam_malformed(rng, exact):
 FAMILIES = [("stat", fam_stat, 5), ("ess", fam_ess, 4), ("impose", fam_impose, 7), ("weights", fam_weights, 4),
             ("surgery", fam_surgery, 4), ("collapse", fam_collapse, 4), ("dist", fam_dist, 5), ("approx", fam_approx, 1),
             ("robust", fam_robust, 1), ("median", fam_median, 3), ("trim", fam_trim, 6), ("malformed", fam_malformed, 1)]
-import c18x
-FAMILIES = FAMILIES + c18x.FAMILIES_X
+import c18x, c18r
+FAMILIES = FAMILIES + c18x.FAMILIES_X + c18r.FAMILIES_R
 _FAM_BAG = [f for f in FAMILIES for _ in range(f[2])]
 
 
@@ -1615,7 +1616,7 @@ def witnesses():
         out.append(Finding("monitor", "impose_mad/median-kept", "median %r -> %r (xs=%r ws=%r)" % (M.median(xs, ws), med, xs, ws), desc))
     # second deepening: impose_product on an even number of weights with the wrong sign, minkowski's numpy error state
     # after an exception, minkowski on integer-typed arrays
-    for key, what, desc in c18x.witnesses():
+    for key, what, desc in c18x.witnesses() + c18r.witnesses():
         out.append(Finding("monitor", key, what, desc))
     return out
 
@@ -1638,6 +1639,11 @@ RULE = ("cases: random calls of mean/moment/variance/std/spread/support(_index)/
         "expected_variance / expected_std (designed two-point families with perfect-square variance, zero / negative / cancelling weights, tol "
         "cuts), impose_moment (orders 0-5, skew None/True/False, tol, targets of either sign and 0, degenerate moments), impose_product (lengths "
         "0-5, negative weights, targets of either sign and 0, zsum / zmass), integer-typed normalize / impose_sum / impose_weight_norm / 'l<p>'. "
+        "Third deepening (harness/c18r.py): every metric (p = 1..7, inf) through the matrix / pairwise / single-pair interfaces and Lnorm (p = 0..7, inf) "
+        "on coordinates drawn from magnitude classes over the whole float range (0, denormal, 1e-300..1e-100, 1e-100..1e-3, ordinary, 1e3..1e100, "
+        "1e100..1e300, the p-dependent boundaries where the p-th power becomes denormal / vanishes / overflows, a little and far either side), "
+        "column-wise correlated so that underflowing and overflowing differences occur alone and next to ordinary ones; judged scale-free "
+        "(rel 1e-9 in the p-th power + the absolute rounding of gradual underflow). "
         "60% of the cases are drawn in the exactness regime (dyadic data, certified per case: every summed term "
         "list is a multiple of 2^-40 bounded by 256) and compared bit-exactly; the rest are general floats compared at rel 1e-9. "
         "non-trivial = the operation had something to do (>= 2 distinct samples / a weight actually dropped or rescaled / a pair "
@@ -1648,6 +1654,7 @@ TRUSTED = ["Lean 4.33 kernel; axioms per theorem listed under coverage.theorems"
            "median/mad/impose_median/impose_mad and _sort/_k/tmean/tvariance/tstd/impose_tmean/impose_tvariance/impose_tstd are modelled with a STABLE insertion sort: cases where equal samples carry different weights (numpy's argsort order is then an implementation detail) are not compared bit-exactly (the textbook monitor still applies); impose_moment, impose_product, the *reweighted* and optimizer-based imposers are not covered",
            "trimmed family: numpy's ndarray.round(15) = rint(x*1e15)/1e15 (round-half-even), CPython 3.12's compensated float sum and numpy's sequential cumsum are re-implemented in the driver / model and tied to the real ones by the bit-exact comparison only; a winsorised quantile that falls within 1e-9 of a jump of the cumulative weight is not judged by the textbook monitor (either neighbouring sample is accepted at an exact jump)",
            "DSL twins harness/dsl.py and Model/Dsl.lean for the function argument of expectation / ess_*",
+           "float-range stream: the overflow decision of the model (repeated multiplication) and of numpy (libm pow) is not compared when a power or a lane sum lies within 1e-6 of 2^1024 (the monitor accepts the p-norm or the infinity norm there); a p-norm whose every power underflows is accepted as 0 (absolute allowance n*2^-1060 in the p-th power: rounding of gradual underflow, not a defect of the definition)",
            "distance.py: numpy's broadcasting, transposes, newaxis slices, axis handling (incl. axis=0/-1 on 0-d arrays) and the rule 'max over an axis of length 0 raises' are re-implemented in Model/MeasuresX.lean (NArr) and tied to numpy by the bit-exact comparison only; the overflow FloatingPointError is modelled as 'a finite distance whose power is not finite, or a non-finite sum of finite powers' and exercised only far from the overflow boundary; integer-typed inputs are generated below the int64 wrap; libm pow is trusted to return exactly representable roots exactly (roots are compared bit-exactly only for perfect powers)"]
 ASSUME = ["IEEE binary64 + - * / sqrt and comparisons agree between Lean Float and CPython/numpy",
           "the sign of a zero and NaN payloads are not compared",
